@@ -21,6 +21,7 @@ SECRETS = {
     "a": "a",
     "ab": "ab",
     "unicode": "pässwörd☃",
+    "nfkc": "\ufb01le-a\u0308-\uff21-\u00b2",  # ligature, combining accent, fullwidth A, superscript 2
     "long": "x" * 300 + "end",
     "bytes": b"\xff\x00bin\xfe",
     "colon": "pass:word",
@@ -161,6 +162,12 @@ class World:
                 if sv.method == "aes" and got != pt:
                     return {"out": "notpt", "ret": {"t": "none"}, "notpt": True}
                 return {"out": "ok", "ret": {"t": "bytes", "y": list(got)}, "notpt": got != pt}
+            if op == "DecryptTruncated":
+                sv, k, pt = self.store[ev["i"] - 1]
+                cut = cinco.encryption.SecureValue(sv.method, sv.ciphertext[:32])
+                with self.kf[k] as ctx:
+                    ctx.decrypt(cut)
+                return {"out": "ok"}
             if op == "DecryptBad":
                 sv = cinco.encryption.SecureValue(ev["sv"]["m"], bytes(codec.seq(ev["sv"]["ct"]["y"])))
                 with self.kf[ev["key"]] as ctx:
@@ -246,7 +253,7 @@ def normalise(edges, inits):
 C08_INV = ["C08_ConcreteMethod", "C08_Inverse", "C08_FreshIV", "C08_WrongKey", "C08_XorInvolution", "C08_MalformedRejected"]
 C09_INV = ["C09_Exact", "C09_SaltLen", "C09_HandWrittenHashed"]
 C09_PROP = ["C09_FreshSalt", "C09_Survives"]
-C08_OPS = ("Encrypt", "Decrypt", "DecryptBad", "LoadStored")
+C08_OPS = ("Encrypt", "Decrypt", "DecryptBad", "DecryptTruncated", "LoadStored")
 C09_OPS = ("Assign", "LoadPlain", "Challenge", "SaveLoad")
 
 
